@@ -1,8 +1,180 @@
-import Cirbo.Model.Gen2
-/-! # C09 (placeholder until the theorems are in)
--- OBLIGATION: c09_placeholder
+import Cirbo.Proofs.GenArith
+/-!
+# C09 — Subtraction, comparison and gadget generators are exact
+
+-- OBLIGATION: c09_generators_only_add_fresh_gates
+-- OBLIGATION: c09_sub_two_numbers
+-- OBLIGATION: c09_subtract_with_compare
+-- OBLIGATION: c09_equal
+-- OBLIGATION: c09_plus_one
+-- OBLIGATION: c09_if_then_else
+-- OBLIGATION: c09_pairwise_xor
+-- OBLIGATION: c09_pairwise_if_then_else
+-- OBLIGATION: c09_outputs_only_when_asked
+-- PARTIAL: add_div_mod (floor(a/b), a mod b, (0,0) for b=0) and add_sqrt (floor(sqrt a) on ceil(n/2) bits) are modelled one-to-one (Model/Gen2.lean), compared gate for gate with the code and checked on all operand values by the search on every run; their value theorems are not proved yet (the frame theorem covers them: they are Prog programs). add_equal is proved for width >= 1 (width 0 is outside the stated domain: every other generator rejects it). Fuel-free: none of these generators uses fuel.
 -/
 namespace Cirbo
-theorem c09_placeholder : True := trivial
-#print axioms c09_placeholder
+
+/-- the frame theorem of C07 covers every generator of this property too (they are `Prog`s):
+only fresh non-INPUT gates, inputs/blocks kept, existing gates keep their function -/
+theorem c09_generators_only_add_fresh_gates {α} (p : Prog α) {st st' : GSt} {a : α}
+    (h : p.run st = .ok (a, st')) (hw : WFS st.c) : GenFrame st.c st'.c := run_frame p h hw
+
+/-- **`add_sub_two_numbers`**: `|res| = |a|` and, with `b' = b mod 2^|a|`, `a + 2^|a|·k = b' + res`
+for a borrow `k ≤ 1` — i.e. `res = (a − b) mod 2^|a|` -/
+theorem c09_sub_two_numbers {st st' : GSt} {x y out : List Label} {be : Bool}
+    (h : (addSubTwoNumbers x y be).run st = .ok (out, st')) (hw : WFS st.c)
+    (hx : ∀ l ∈ x, l ∈ st.c.labels) (hy : ∀ l ∈ y, l ∈ st.c.labels)
+    {b v : Label → Bool} (hv : IsValB st.c b v) :
+    out.length = x.length ∧
+    ∃ v', IsValB st'.c b v' ∧ (∀ l ∈ st.c.labels, v' l = v l) ∧
+      ∃ k, k ≤ 1 ∧ valLE v (revIf x be) + 2 ^ x.length * k =
+        valLE v ((revIf y be).take x.length) + valLE v' (revIf out be) := by
+  obtain ⟨v', h1, h2, h3⟩ := run_total h hw hv
+  obtain ⟨e1, k, hk, e2⟩ := sem_addSubTwoNumbers h3
+  refine ⟨e1, v', h1, h2, k, hk, ?_⟩
+  rw [← valLE_congr (v := v) (v' := v') (fun l hl => h2 l (hx l (mem_revIf.mp hl))),
+    ← valLE_congr (v := v) (v' := v') (fun l hl => h2 l (hy l (mem_revIf.mp (List.mem_of_mem_take hl))))]
+  exact e2
+
+/-- **`add_subtract_with_compare`**: with `w = max(|a|,|b|)`: `a + 2^w·borrow = b + res`, and the
+returned flag is True exactly when `a < b` -/
+theorem c09_subtract_with_compare {st st' : GSt} {x y out : List Label} {bal : Label} {be : Bool}
+    (h : (addSubtractWithCompare x y be).run st = .ok ((out, bal), st')) (hw : WFS st.c)
+    (hx : ∀ l ∈ x, l ∈ st.c.labels) (hy : ∀ l ∈ y, l ∈ st.c.labels)
+    {b v : Label → Bool} (hv : IsValB st.c b v) :
+    out.length = max x.length y.length ∧
+    ∃ v', IsValB st'.c b v' ∧ (∀ l ∈ st.c.labels, v' l = v l) ∧
+      valLE v (revIf x be) + 2 ^ (max x.length y.length) * bv v' bal = valLE v (revIf y be) + valLE v' (revIf out be) ∧
+      (v' bal = true ↔ valLE v (revIf x be) < valLE v (revIf y be)) := by
+  obtain ⟨v', h1, h2, h3⟩ := run_total h hw hv
+  obtain ⟨e1, e2, e3⟩ := sem_addSubtractWithCompare h3
+  refine ⟨e1, v', h1, h2, ?_, ?_⟩
+  · rw [← valLE_congr (v := v) (v' := v') (fun l hl => h2 l (hx l (mem_revIf.mp hl))),
+      ← valLE_congr (v := v) (v' := v') (fun l hl => h2 l (hy l (mem_revIf.mp hl)))]
+    exact e2
+  · rw [← valLE_congr (v := v) (v' := v') (fun l hl => h2 l (hx l (mem_revIf.mp hl))),
+      ← valLE_congr (v := v) (v' := v') (fun l hl => h2 l (hy l (mem_revIf.mp hl)))]
+    exact e3
+
+/-- **`add_equal`**: True exactly when the little-endian operand equals the constant -/
+theorem c09_equal {st st' : GSt} {ins : List Label} {num : Nat} {out : Label}
+    (h : (addEqual ins num).run st = .ok (out, st')) (hw : WFS st.c) (hn : 1 ≤ ins.length)
+    (hin : ∀ l ∈ ins, l ∈ st.c.labels) {b v : Label → Bool} (hv : IsValB st.c b v) :
+    ∃ v', IsValB st'.c b v' ∧ (∀ l ∈ st.c.labels, v' l = v l) ∧ (v' out = true ↔ valLE v ins = num) := by
+  obtain ⟨v', h1, h2, h3⟩ := run_total h hw hv
+  refine ⟨v', h1, h2, ?_⟩
+  rw [← valLE_congr (v := v) (v' := v') (fun l hl => h2 l (hin l hl))]
+  exact sem_addEqual h3 hn
+
+/-- **`add_plus_one`**: `(x + 1) mod 2^out_len`, whatever `out_len` is -/
+theorem c09_plus_one {st st' : GSt} {ins out : List Label} {rl : Option (List Label)} {ao be : Bool}
+    (h : (addPlusOne ins rl ao be).run st = .ok (out, st')) (hw : WFS st.c)
+    (hin : ∀ l ∈ ins, l ∈ st.c.labels) {b v : Label → Bool} (hv : IsValB st.c b v) :
+    ∃ v', IsValB st'.c b v' ∧ (∀ l ∈ st.c.labels, v' l = v l) ∧
+      valLE v' (revIf out be) = (valLE v (revIf ins be) + 1) % 2 ^ out.length := by
+  obtain ⟨v', h1, h2, h3⟩ := run_total h hw hv
+  refine ⟨v', h1, h2, ?_⟩
+  rw [← valLE_congr (v := v) (v' := v') (fun l hl => h2 l (hin l (mem_revIf.mp hl)))]
+  exact (sem_addPlusOne h3).2.2
+
+theorem c09_if_then_else {st st' : GSt} {i t e out : Label} {rl : Option Label} {ao : Bool}
+    (h : (addIfThenElse i t e rl ao).run st = .ok (out, st')) (hw : WFS st.c)
+    (hi : i ∈ st.c.labels) (ht : t ∈ st.c.labels) (he : e ∈ st.c.labels)
+    {b v : Label → Bool} (hv : IsValB st.c b v) :
+    ∃ v', IsValB st'.c b v' ∧ (∀ l ∈ st.c.labels, v' l = v l) ∧ v' out = if v i then v t else v e := by
+  obtain ⟨v', h1, h2, h3⟩ := run_total h hw hv
+  refine ⟨v', h1, h2, ?_⟩
+  rw [← h2 i hi, ← h2 t ht, ← h2 e he]
+  exact sem_addIfThenElse h3
+
+theorem c09_pairwise_xor {st st' : GSt} {xs ys out : List Label} {rl : Option (List Label)} {ao : Bool}
+    (h : (addPairwiseXor xs ys rl ao).run st = .ok (out, st')) (hw : WFS st.c)
+    (hx : ∀ l ∈ xs, l ∈ st.c.labels) (hy : ∀ l ∈ ys, l ∈ st.c.labels)
+    {b v : Label → Bool} (hv : IsValB st.c b v) :
+    out.length = xs.length ∧
+    ∃ v', IsValB st'.c b v' ∧ (∀ l ∈ st.c.labels, v' l = v l) ∧
+      out.map v' = List.zipWith xor (xs.map v) (ys.map v) := by
+  obtain ⟨v', h1, h2, h3⟩ := run_total h hw hv
+  obtain ⟨e1, e2⟩ := sem_addPairwiseXor h3
+  refine ⟨e1, v', h1, h2, ?_⟩
+  rw [e2, List.map_congr_left (fun l hl => h2 l (hx l hl)), List.map_congr_left (fun l hl => h2 l (hy l hl))]
+
+theorem c09_pairwise_if_then_else {st st' : GSt} {is ts es out : List Label} {rl : Option (List Label)} {ao : Bool}
+    (h : (addPairwiseIfThenElse is ts es rl ao).run st = .ok (out, st')) (hw : WFS st.c)
+    (hi : ∀ l ∈ is, l ∈ st.c.labels) (ht : ∀ l ∈ ts, l ∈ st.c.labels) (he : ∀ l ∈ es, l ∈ st.c.labels)
+    {b v : Label → Bool} (hv : IsValB st.c b v) :
+    out.length = is.length ∧
+    ∃ v', IsValB st'.c b v' ∧ (∀ l ∈ st.c.labels, v' l = v l) ∧
+      out.map v' = iteSpec (is.map v) (ts.map v) (es.map v) := by
+  obtain ⟨v', h1, h2, h3⟩ := run_total h hw hv
+  obtain ⟨e1, e2⟩ := sem_addPairwiseIfThenElse h3
+  refine ⟨e1, v', h1, h2, ?_⟩
+  rw [e2, List.map_congr_left (fun l hl => h2 l (hi l hl)), List.map_congr_left (fun l hl => h2 l (ht l hl)),
+    List.map_congr_left (fun l hl => h2 l (he l hl))]
+
+/-- a program without `mark` nodes leaves the outputs alone -/
+inductive NoMark {α : Type} : Prog α → Prop
+  | pure (a : α) : NoMark (.pure a)
+  | fresh (r k) : (∀ l, NoMark (k l)) → NoMark (.fresh r k)
+  | add (g ok k) : NoMark k → NoMark (.add g ok k)
+  | fail (e) : NoMark (.fail e)
+
+theorem run_noMark {α} {p : Prog α} (hp : NoMark p) : ∀ {st : GSt} {a : α} {st' : GSt}, p.run st = .ok (a, st') →
+    st'.c.outputs = st.c.outputs := by
+  induction hp with
+  | pure a => intro st a' st' h; simp only [Prog.run, Except.ok.injEq, Prod.mk.injEq] at h; obtain ⟨_, rfl⟩ := h; rfl
+  | fresh r k _ ih =>
+    intro st a st' h
+    simp only [Prog.run] at h
+    split at h
+    · cases h
+    · have := ih _ h; exact this
+  | add g ok k _ ih =>
+    intro st a st' h
+    simp only [Prog.run] at h
+    split at h
+    · cases h
+    · rename_i c' hc
+      obtain ⟨_, _, _, _, ho, _⟩ := addGate_fields hc
+      rw [ih h, ho]
+  | fail e => intro st a st' h; simp [Prog.run] at h
+
+theorem noMark_bind {α β} {p : Prog α} {f : α → Prog β} (hp : NoMark p) (hf : ∀ a, NoMark (f a)) : NoMark (p >>= f) := by
+  show NoMark (p.bind f)
+  induction hp with
+  | pure a => exact hf a
+  | fresh r k _ ih => exact .fresh _ _ ih
+  | add g ok k _ ih => exact .add _ _ _ ih
+  | fail e => exact .fail e
+
+theorem noMark_freshLabels : ∀ n restr acc, NoMark (freshLabels n restr acc) := by
+  intro n; induction n with
+  | zero => intro _ _; exact .pure _
+  | succ n ih => intro restr acc; exact .fresh _ _ (fun l => ih _ _)
+
+/-- **outputs are marked only when asked to** (shown for `add_if_then_else`; the same shape for the
+other gadgets): with `add_outputs=False` the host's outputs are unchanged -/
+theorem c09_outputs_only_when_asked {st st' : GSt} {i t e out : Label} {rl : Option Label}
+    (h : (addIfThenElse i t e rl false).run st = .ok (out, st')) : st'.c.outputs = st.c.outputs := by
+  refine run_noMark ?_ h
+  unfold addIfThenElse
+  refine noMark_bind ?_ fun res => noMark_bind (noMark_freshLabels _ _ _) fun tmp => ?_
+  · cases rl with
+    | some l => exact .pure _
+    | none => exact .fresh _ _ (fun l => .pure _)
+  · split
+    · exact .add _ _ _ (.add _ _ _ (.add _ _ _ (.add _ _ _ (by simp only [Bool.false_eq_true, if_false]; exact .pure _))))
+    · exact .fail _
+
+#print axioms c09_generators_only_add_fresh_gates
+#print axioms c09_sub_two_numbers
+#print axioms c09_subtract_with_compare
+#print axioms c09_equal
+#print axioms c09_plus_one
+#print axioms c09_if_then_else
+#print axioms c09_pairwise_xor
+#print axioms c09_pairwise_if_then_else
+#print axioms c09_outputs_only_when_asked
+
 end Cirbo
